@@ -16,6 +16,11 @@ structure CellProps where
   opts : Option (List Opt)   -- oneOf, else anyOf
   deriving Repr, DecidableEq, Inhabited
 
+/-- value shapes a schema admits for a keyword (the generator's and the C03 table's vocabulary) -/
+inductive Shape where
+  | str | enumw (w : Str) | num | bool | binding | expr | regex | hexcolor | listexpr
+  deriving Repr, DecidableEq, Inhabited
+
 /-- `get_attribute_properties` returns `{}` for an unknown keyword -/
 def CellProps.empty : CellProps := ⟨false, false, false, none⟩
 
